@@ -10,6 +10,11 @@ CLAIMED = {
         technique='deterministic simulation: seeded thread-schedule search (random walk / PCT / burst) over real worker threads with simulated locks, thread ids and clock; exactly-once ledgers checked on the recorded history',
         text='Seeded exploration of thread schedules of 2-8 real worker threads through pg.sample and the in-memory backend, with worker death/restart, end_loop, cold start and clock jumps injected; exactly-once ledgers and quiescence bookkeeping are checked on every run. Sampling, not enumeration: a clean batch is evidence, not proof.',
         note='Trusted: the scheduler owns every switch (real threads parked on events; locks, get_ident, time and datetime are simulated through module-attribute seams found by scanning pyglove modules). Pre-emption at line granularity plus read-modify-write windows inside tuning/geno/evolution modules; worker evaluation is a stub.'),
+    'C15': dict(
+        engine='search', design='§3.2',
+        technique='deterministic simulation: controller crash at every proposal prefix with in-flight rewards and two persistence orders, restart from a JSON trial store, comparison with the uninterrupted controller, then bounded continuation once faults stop',
+        text='Seeded exploration over (algorithm configuration, DNASpec, run length) x crash scenarios (crash after k proposals, last w rewards in flight, DNA metadata persisted before/after feedback). A fresh instance recovers from a JSON store and is compared with the uninterrupted one (counts, population with fitness, de-duplication memory through the inner generator and continuation); deterministic algorithms must continue identically. Sampling of configurations, near-enumeration of crash points per configuration.',
+        note='Trusted: the uninterrupted controller can be rebuilt to any prefix because every algorithm is seeded; the trial store and evaluation are stubs; rewards arrive in proposal order with a fixed lag. One listed known finding (dropped duplicates under Deduping(Random)).'),
 }
 
 NOT_APPLICABLE = {}
